@@ -139,3 +139,231 @@ theorem filterKeys_nil (m : List (Nat × α)) : filterKeys [] m = [] := by
   intro kv _; simp
 
 end J5V.Codec
+
+namespace J5V.Codec
+
+variable {α : Type}
+
+/-! ## extensionality of sorted stores, `aset` -/
+
+theorem aget_cons_self (k : Nat) (v : α) (t : List (Nat × α)) : aget k ((k, v) :: t) = some v := by
+  simp [aget]
+
+theorem aget_cons_ne (k k' : Nat) (v : α) (t : List (Nat × α)) (h : k ≠ k') :
+    aget k ((k', v) :: t) = aget k t := by
+  simp [aget, h]
+
+theorem aget_some_of_mem_akeys' (k : Nat) (m : List (Nat × α)) (h : k ∈ akeys m) :
+    ∃ v, aget k m = some v := by
+  induction m with
+  | nil => simp [akeys] at h
+  | cons kv t ih =>
+    obtain ⟨k', v'⟩ := kv
+    by_cases hk : k = k'
+    · exact ⟨v', by simp [aget, hk]⟩
+    · simp only [akeys, List.map_cons, List.mem_cons] at h
+      rcases h with h | h
+      · exact absurd h hk
+      · obtain ⟨v, hv⟩ := ih (by simpa [akeys] using h)
+        exact ⟨v, by simp [aget, hk, hv]⟩
+
+/-- two sorted stores with the same lookups are equal (`proto.Equal` is extensional) -/
+theorem Store.ext : ∀ (a b : List (Nat × α)), asorted a = true → asorted b = true →
+    (∀ k, aget k a = aget k b) → a = b := by
+  intro a
+  induction a with
+  | nil =>
+    intro b _ _ h
+    cases b with
+    | nil => rfl
+    | cons kv t =>
+      obtain ⟨k, v⟩ := kv
+      have := h k
+      simp [aget] at this
+  | cons kv ta ih =>
+    intro b ha hb h
+    obtain ⟨k, v⟩ := kv
+    cases b with
+    | nil => have := h k; simp [aget] at this
+    | cons kv' tb =>
+      obtain ⟨k', v'⟩ := kv'
+      have hta := asorted_tail (k, v) ta ha
+      have htb := asorted_tail (k', v') tb hb
+      have hkk : k = k' := by
+        -- each head key occurs in the other list, and is its minimum
+        have h1 := h k
+        rw [aget_cons_self] at h1
+        have h2 := h k'
+        rw [aget_cons_self] at h2
+        by_cases e : k = k'
+        · exact e
+        · exfalso
+          rw [aget_cons_ne k k' v' tb e] at h1
+          rw [aget_cons_ne k' k v ta (fun x => e x.symm)] at h2
+          have m1 := htb.2 k (mem_akeys_of_aget k v tb h1.symm)
+          have m2 := hta.2 k' (mem_akeys_of_aget k' v' ta h2)
+          simp only [] at m1 m2
+          omega
+      subst hkk
+      have hv : v = v' := by
+        have := h k
+        rw [aget_cons_self, aget_cons_self] at this
+        exact Option.some.inj this
+      subst hv
+      congr 1
+      apply ih tb hta.1 htb.1
+      intro x
+      by_cases hx : x = k
+      · subst hx
+        have n1 : x ∉ akeys ta := fun hm => by have := hta.2 x hm; simp at this
+        have n2 : x ∉ akeys tb := fun hm => by have := htb.2 x hm; simp at this
+        rw [aget_none_of_not_mem x ta n1, aget_none_of_not_mem x tb n2]
+      · have := h x
+        rw [aget_cons_ne x k v ta hx, aget_cons_ne x k v tb hx] at this
+        exact this
+
+theorem aget_aset (k k' : Nat) (x : α) (m : List (Nat × α)) :
+    aget k' (aset k x m) = if k' = k then some x else aget k' m := by
+  induction m with
+  | nil => simp [aset, aget]
+  | cons kv t ih =>
+    obtain ⟨k2, v2⟩ := kv
+    simp only [aset]
+    split
+    · -- inserted in front
+      by_cases h : k' = k
+      · simp [aget, h]
+      · simp [aget, h]
+    · split
+      · next hk => -- replaced
+        subst hk
+        by_cases h : k' = k
+        · simp [aget, h]
+        · simp [aget, h]
+      · next hlt hne =>
+        by_cases h : k' = k
+        · subst h
+          have : k' ≠ k2 := hne
+          simp [aget, this, ih]
+        · by_cases h2 : k' = k2
+          · simp [aget, h2, h]
+            intro e; exact absurd (e ▸ h2) h
+          · simp [aget, h2, ih, h]
+
+theorem asorted_cons_of (k : Nat) (v : α) (t : List (Nat × α)) (ht : asorted t = true)
+    (h : ∀ x ∈ akeys t, k < x) : asorted ((k, v) :: t) = true := by
+  cases t with
+  | nil => rfl
+  | cons kv t' =>
+    obtain ⟨k', v'⟩ := kv
+    simp only [asorted, Bool.and_eq_true, decide_eq_true_eq]
+    exact ⟨h k' (by simp [akeys]), ht⟩
+
+theorem akeys_aset (k : Nat) (x : α) (m : List (Nat × α)) (y : Nat) (h : y ∈ akeys (aset k x m)) :
+    y = k ∨ y ∈ akeys m := by
+  obtain ⟨v, hv⟩ := aget_some_of_mem_akeys' y _ h
+  rw [aget_aset] at hv
+  by_cases e : y = k
+  · exact Or.inl e
+  · rw [if_neg e] at hv
+    exact Or.inr (mem_akeys_of_aget y v m hv)
+
+theorem asorted_aset (k : Nat) (x : α) (m : List (Nat × α)) (h : asorted m = true) :
+    asorted (aset k x m) = true := by
+  induction m with
+  | nil => rfl
+  | cons kv t ih =>
+    obtain ⟨k2, v2⟩ := kv
+    have ht := asorted_tail (k2, v2) t h
+    simp only [aset]
+    split
+    · next hlt =>
+      apply asorted_cons_of k x _ h
+      intro y hy
+      simp only [akeys, List.map_cons, List.mem_cons] at hy
+      rcases hy with rfl | hy
+      · exact hlt
+      · have := ht.2 y (by simpa [akeys] using hy); simp only [] at this; omega
+    · split
+      · next hk =>
+        subst hk
+        exact asorted_cons_of k x t ht.1 (fun y hy => ht.2 y hy)
+      · next hlt hne =>
+        apply asorted_cons_of k2 v2 _ (ih ht.1)
+        intro y hy
+        rcases akeys_aset k x t y hy with rfl | hy'
+        · omega
+        · exact ht.2 y hy'
+
+/-! ## entry-wise partial maps of a store -/
+
+/-- keep / rewrite / drop every entry independently -/
+def mapFilter (g : Nat → α → Option α) (m : List (Nat × α)) : List (Nat × α) :=
+  m.filterMap fun kv => (g kv.1 kv.2).map fun v => (kv.1, v)
+
+theorem mapFilter_cons (g : Nat → α → Option α) (k : Nat) (v : α) (t : List (Nat × α)) :
+    mapFilter g ((k, v) :: t) =
+      match g k v with
+      | some v' => (k, v') :: mapFilter g t
+      | none => mapFilter g t := by
+  unfold mapFilter
+  rw [List.filterMap_cons]
+  cases g k v <;> rfl
+
+theorem akeys_mapFilter_subset (g : Nat → α → Option α) (m : List (Nat × α)) (x : Nat)
+    (h : x ∈ akeys (mapFilter g m)) : x ∈ akeys m := by
+  induction m with
+  | nil => simp [mapFilter, akeys] at h
+  | cons kv t ih =>
+    obtain ⟨k, v⟩ := kv
+    rw [mapFilter_cons] at h
+    simp only [akeys, List.map_cons, List.mem_cons]
+    cases hg : g k v with
+    | none => rw [hg] at h; exact Or.inr (ih h)
+    | some v' =>
+      rw [hg] at h
+      simp only [akeys, List.map_cons, List.mem_cons] at h
+      rcases h with h | h
+      · exact Or.inl h
+      · exact Or.inr (ih (by simpa [akeys] using h))
+
+theorem asorted_mapFilter (g : Nat → α → Option α) (m : List (Nat × α)) (h : asorted m = true) :
+    asorted (mapFilter g m) = true := by
+  induction m with
+  | nil => rfl
+  | cons kv t ih =>
+    obtain ⟨k, v⟩ := kv
+    have ht := asorted_tail (k, v) t h
+    rw [mapFilter_cons]
+    cases g k v with
+    | none => exact ih ht.1
+    | some v' =>
+      exact asorted_cons_of k v' _ (ih ht.1)
+        (fun y hy => ht.2 y (akeys_mapFilter_subset g t y hy))
+
+theorem aget_mapFilter (g : Nat → α → Option α) (m : List (Nat × α)) (h : asorted m = true) (x : Nat) :
+    aget x (mapFilter g m) = (aget x m).bind (g x) := by
+  induction m with
+  | nil => rfl
+  | cons kv t ih =>
+    obtain ⟨k, v⟩ := kv
+    have ht := asorted_tail (k, v) t h
+    rw [mapFilter_cons]
+    by_cases hx : x = k
+    · subst hx
+      rw [aget_cons_self]
+      simp only [Option.bind_some]
+      cases hg : g x v with
+      | none =>
+        simp only []
+        apply aget_none_of_not_mem
+        intro hm
+        have := ht.2 x (akeys_mapFilter_subset g t x hm)
+        simp at this
+      | some v' => simp [aget]
+    · rw [aget_cons_ne x k v t hx]
+      cases g k v with
+      | none => exact ih ht.1
+      | some v' => simp only []; rw [aget_cons_ne x k v' _ hx]; exact ih ht.1
+
+end J5V.Codec
